@@ -28,6 +28,31 @@ CHECKS = {
     ),
 }
 
+ENGINE_NOTE = (COMMON_TRUST + "; scripted loopback API is deterministic and its log is the ground truth for requests; Hypothesis is modelled as a "
+               "nondeterministic source of cases; hook points sit at the linearisation points named in DESIGN Appendix A; a run cut short by "
+               "--max-failures is exempt like an interruption (DESIGN Appendix F.2)")
+ENGINE_TECH = ("TLA+ design model Engine.tla (plan loop, worker threads, consumer, failure counter, exit code) checked exhaustively by TLC; "
+               "EngineFamily.tla enumerates run descriptors; every sampled descriptor x every stop / Ctrl-C position x single faults executed by the real "
+               "engine against a scripted API; each recorded run validated line by line by EngineStream.tla (EventProtocol automaton + accounting)")
+CHECKS.update({
+    "C05": dict(engine="Engine", technique=ENGINE_TECH, design_ref="§5 C05, App. A, F.2", note=ENGINE_NOTE,
+        text="Model checking + trace validation. TLC checks NoProblemLost/ZeroMeansClean on the design model for all interleavings of 2 workers, "
+             "one fault and one stop; the real engine is then run for TLC-enumerated descriptors (API behaviours ok/500/conditional 500/dropped connection/"
+             "invalid schema, phases, workers 1-3, max-failures, continue-on-failure, unique-inputs) and single injected faults at each pipeline stage "
+             "(test construction, case execution, transport, checks); every recorded run (event stream + server log + hook points + CLI exit code) is validated "
+             "by the TLA+ trace spec: any bad answer/fault must be reported on the scenario, the phase and the exit code, and exit 0 only for clean runs."),
+    "C11": dict(engine="Engine", technique=ENGINE_TECH, design_ref="§5 C11, App. A, F.1", note=ENGINE_NOTE,
+        text="Model checking + trace validation. The EventProtocol reference automaton (written from the property) is an invariant of the design model under "
+             "all interleavings, and judges every recorded stream of the real engine: for each sampled descriptor the stream is stopped at EVERY event index, "
+             "Ctrl-C is raised at every consumer get, and single faults are injected; nesting, identifiers, phase order, single start/finish and status "
+             "consistency are checked after every line."),
+    "C12": dict(engine="Engine", technique=ENGINE_TECH, design_ref="§5 C12, App. A", note=ENGINE_NOTE,
+        text="Model checking + trace validation. TLC checks AtMostOneAfterStop/MaxFailuresRespected/LaterPhasesSkipped on the design model; the real engine is run "
+             "over a sweep of max_examples, max_failures, step counts, workers, unique-inputs and stop positions; the TLA+ trace spec counts requests on the "
+             "server log (max-examples for clean operations, duplicates under unique-inputs), delivered failures vs. the limit and skipped later phases, and "
+             "per-thread sends / scenario announcements after the stop request (queue puts are logged under the queue's own mutex). Rate limiting is not covered yet."),
+})
+
 REASON_PENDING = "no check registered yet: spec/harness for this property is still being built (DESIGN.md §10 build order); nothing is claimed"
 
 
